@@ -102,6 +102,12 @@ def formulaValue : List String → Option (Option Opnd)
     | _ => none
   | _ => none
 
+/-- float results of `^` are only approximately the C library's (Ops.pyPow): numbers are marked `~` -/
+def markApprox (form : List String) (out : String) : String :=
+  match form with
+  | "op" :: "Pow" :: _ => " ".intercalate ((out.splitOn " ").map fun t => if t.startsWith "n:" then "~" ++ t else t)
+  | _ => out
+
 def handle : List String → String
   | "c13" :: "fn" :: name :: rest =>
     -- functions outside the small scalar table are compared by the implementation-only oracle alone
@@ -123,10 +129,10 @@ def handle : List String → String
       | some res =>
         if h = 1 ∧ w = 1 then
           let v := encArr [[singleCell res]]
-          v ++ " ; " ++ v
+          markApprox rest (v ++ " ; " ++ v)
         else
           let tgt := toArr (fitCtx (seenByArrayFormula h w d 2) res)
-          encArr tgt ++ " ; " ++ encArr (membersOf tgt r0 c0 h w)
+          markApprox rest (encArr tgt ++ " ; " ++ encArr (membersOf tgt r0 c0 h w))
     | _, _, _, _, _, _ => "!bad-arg"
   | "c13" :: "wb" :: r0 :: c0 :: h :: w :: rest =>
     match r0.toNat?, c0.toNat?, h.toNat?, w.toNat?, formulaValue rest with
@@ -136,12 +142,12 @@ def handle : List String → String
       | some res =>
         if h = 1 ∧ w = 1 then
           let v := encArr [[singleCell res]]
-          v ++ " ; " ++ v
-        else encArr (evalTarget res h w) ++ " ; " ++ encArr (members res r0 c0 h w)
+          markApprox rest (v ++ " ; " ++ v)
+        else markApprox rest (encArr (evalTarget res h w) ++ " ; " ++ encArr (members res r0 c0 h w))
     | _, _, _, _, _ => "!bad-arg"
   | "c13" :: rest =>
     match formulaValue rest with
-    | some v => showRes v
+    | some v => markApprox rest (showRes v)
     | none => "!bad-arg"
   | _ => "!bad-op"
 
